@@ -24,6 +24,8 @@ pub struct ExecCtx {
     pub max_prediction: usize,
     /// upper bound on AdvanceFrame requests per call (1 except for spectators)
     pub max_advances: usize,
+    /// the first simulation of frame 0 must be preceded by a save of frame 0
+    pub expect_first_save: bool,
     pub t_us: u64,
     pub node: usize,
 }
@@ -256,7 +258,7 @@ impl Game {
                         self.used.push(Vec::new());
                     }
                     let first = self.sims[fu] == 0;
-                    if first && f == 0 && ctx.kind == SessKind::Rollback && !self.saved.contains_key(&0) {
+                    if first && f == 0 && ctx.expect_first_save && !self.saved.contains_key(&0) {
                         self.viol(ctx, "c02.first_frame_unsaved", "frame 0 is simulated before any save of frame 0".to_owned(), out);
                     }
                     if !first && f < self.sealed {
